@@ -248,16 +248,21 @@ func c12Body(c *ev.Ctx) {
 	// histories: several dimensions compiled one after the other in one process must each give
 	// what a fresh process gives (dimension pairs whose decimal digits concatenate alike included)
 	{
-		seq := [][2]int{{1, 12}, {11, 2}, {2, 1}, {1, 2}, {12, 1}, {1, 12}}
+		// (digits that concatenate alike; deeper then shallower; larger batch then smaller; repeats)
+		seq := [][2]int{{1, 12}, {11, 2}, {2, 1}, {1, 2}, {12, 1}, {1, 12}, {3, 2}, {2, 3}, {3, 2}}
 		if !quick {
-			seq = append(seq, [2]int{21, 1}, [2]int{2, 11}, [2]int{1, 1}, [2]int{11, 1})
+			seq = append(seq, [2]int{21, 1}, [2]int{2, 11}, [2]int{1, 1}, [2]int{11, 1}, [2]int{31, 1}, [2]int{4, 4}, [2]int{3, 5})
 		}
 		var arg []string
 		for _, dm := range seq {
 			arg = append(arg, fmt.Sprintf("%d,%d", dm[0], dm[1]))
 		}
 		for _, mode := range []string{"insertion", "deletion"} {
-			so, err := runMapChild(&mapRun{What: "buildseq", Mode: mode, D: 0, B: 0, Seed: 2, Procs: 16, Extra: []string{strings.Join(arg, ";")}})
+			var harg []string
+			for _, a := range arg {
+				harg = append(harg, "build:"+mode+":"+a)
+			}
+			so, err := runMapChild(&mapRun{What: "hist", Mode: mode, D: 0, B: 0, Seed: 2, Procs: 16, Extra: []string{strings.Join(harg, ";")}})
 			if err != nil {
 				c.HarnessError("%v", err)
 			}
@@ -285,7 +290,7 @@ func c12Body(c *ev.Ctx) {
 			}, nil)
 			for i, dm := range seq {
 				if i < len(so.Digests) && so.Digests[i] != fresh[dm] {
-					c.Violation(fmt.Sprintf("history-dependent|%s d=%d b=%d", mode, dm[0], dm[1]), fmt.Sprintf("%s (%d,%d) compiled as step %d of the sequence %s in one process gives a different constraint system than in a fresh process", mode, dm[0], dm[1], i+1, strings.Join(arg, " ")), mapRun{What: "buildseq", Mode: mode, Seed: 2, Procs: 16, Extra: []string{strings.Join(arg, ";")}})
+					c.Violation(fmt.Sprintf("history-dependent|%s d=%d b=%d", mode, dm[0], dm[1]), fmt.Sprintf("%s (%d,%d) compiled as step %d of the sequence %s in one process gives a different constraint system than in a fresh process", mode, dm[0], dm[1], i+1, strings.Join(arg, " ")), mapRun{What: "hist", Mode: mode, Seed: 2, Procs: 16, Extra: []string{strings.Join(harg, ";")}})
 				}
 			}
 			done++
